@@ -185,6 +185,7 @@ type tierParams struct {
 	maxFields   int  // leaf fields considered per (file, format)
 	pairSeeds   bool // deep-nesting seeds also from two-byte patterns
 	fieldPats   string
+	fieldsUnit  int // bytes of file size per unit of the fields sampling modulus
 }
 
 func genJobs(r *hlib.Rand, seed uint64, tp tierParams, o *hlib.Out, workDir string) []*job {
@@ -282,8 +283,10 @@ func genJobs(r *hlib.Rand, seed uint64, tp tierParams, o *hlib.Out, workDir stri
 	for _, i := range chosen {
 		f := files[i]
 		for _, n := range f.own {
+			// like the batches: a big file costs more per decode and has more fields, sample it thinner
+			mod := tp.modFields * max(1, f.size/tp.fieldsUnit)
 			for _, force := range []string{"n", "f"} {
-				jobs = append(jobs, &job{text: fmt.Sprintf("fields %s %s %s %d %d %d %s", f.path, n, force, seed, tp.modFields, tp.maxFields, tp.fieldPats),
+				jobs = append(jobs, &job{text: fmt.Sprintf("fields %s %s %s %d %d %d %s", f.path, n, force, seed, mod, tp.maxFields, tp.fieldPats),
 					size: f.size, format: n})
 			}
 		}
@@ -499,9 +502,9 @@ func main() {
 			jobs = append(jobs, &job{text: l})
 		}
 	} else {
-		tp := tierParams{perDir: 12, modOwn: 50, modCross: 400, chunk: 300, modFields: 1, maxFields: 600, fieldPats: "zm"}
+		tp := tierParams{perDir: 12, modOwn: 50, modCross: 400, chunk: 300, modFields: 1, maxFields: 400, fieldPats: "zm", fieldsUnit: 1024}
 		if cfg.Thorough() {
-			tp = tierParams{perDir: 60, modOwn: 6, modCross: 40, fullBelow: 400, chunk: 400, modFields: 1, maxFields: 4000, pairSeeds: true, fieldPats: "zo1ms"}
+			tp = tierParams{perDir: 60, modOwn: 6, modCross: 40, fullBelow: 400, chunk: 400, modFields: 1, maxFields: 4000, pairSeeds: true, fieldPats: "zo1ms", fieldsUnit: 16384}
 		}
 		if v, err := strconv.Atoi(os.Getenv("VERIF_C06_MOD")); err == nil && v > 0 {
 			tp.modOwn = v
